@@ -238,6 +238,19 @@ def eth_world(default):
     return w
 
 
+def fmmu_world(default):
+    """the FMMU map file left behind by earlier sessions: a short
+    (malformed) one, or a complete one in which a process that is gone has
+    left a window marked"""
+    w = simos.World(DIRS + ["/run/ebpf"])
+    content = b"\x07\x00\x21" if default == "short" \
+        else bytes([0x04]) + bytes(63)
+    fd = w.open(0, FMMU, _os.O_WRONLY | _os.O_CREAT | _os.O_EXCL)
+    w.write(0, fd, content)
+    w.close(0, fd)
+    return w
+
+
 BODIES = dict(full=body_full, fmmu=body_fmmu, restart=body_restart,
               eth=body_eth)
 
@@ -648,6 +661,9 @@ def make_space(name, kind, n, preempt, crashes, seed, cap=None, neth=2,
         elif kind == "eth":
             run = simos.Run(eth_world(default), [body_eth] * n, params=dom,
                             symmetric=True)
+        elif kind == "fmmu" and default is not None:
+            run = simos.Run(fmmu_world(default), [body_fmmu] * n,
+                            params=dom, symmetric=True)
         else:
             run = simos.Run(simos.World(DIRS), [BODIES[kind]] * n,
                             params=dom, symmetric=True)
@@ -684,6 +700,10 @@ def spaces(ctx):
               make_space("fmmu-2p-complete", "fmmu", 2, None, 0, s),
               make_space("fmmu-3p-complete-2slots", "fmmu", 3, None, 0, s,
                          nslot=2),
+              make_space("fmmu-2p-complete-short-map", "fmmu", 2, None, 0,
+                         s, default="short"),
+              make_space("fmmu-2p-complete-old-map", "fmmu", 2, None, 0, s,
+                         default="old"),
               make_space("eth-3p-complete-free", "eth", 3, None, 0, s,
                          default="free"),
               make_space("eth-2p-complete-held-crash1", "eth", 2, None, 1,
@@ -708,6 +728,10 @@ def spaces(ctx):
               make_space("full-3p-preempt2-fault1", "full", 3, 2, 0, s,
                          faults=1),
               make_space("fmmu-3p-complete-crash1", "fmmu", 3, None, 1, s),
+              make_space("fmmu-3p-complete-short-map", "fmmu", 3, None, 0,
+                         s, default="short"),
+              make_space("fmmu-3p-complete-old-map", "fmmu", 3, None, 0, s,
+                         default="old"),
               make_space("eth-3p-complete-free-crash1", "eth", 3, None, 1,
                          s, default="free"),
               make_space("eth-3p-complete-held-crash1", "eth", 3, None, 1,
